@@ -402,4 +402,36 @@ Lemma seg_internal_batch_rows core tv ax f rows :
   map (bhjm_seg_internal_row core tv ax mu0 f (existsb seg_not_on_surf (filter seg_is_segment rows))) rows.
 Proof. reflexivity. Qed.
 
+(* ------------------------------------------------------------------ level 1: the pose keeps the property, with the
+   polarization expressed in the observer frame *)
+Lemma mapply_lin m h j : mapply m (vadd (vmuls h mu0) j) = vadd (vmuls (mapply m h) mu0) (mapply m j).
+Proof.
+  destruct m as [[[[a1 a2] a3] [[b1 b2] b3]] [[c1 c2] c3]]. destruct h as [[h1 h2] h3]. destruct j as [[j1 j2] j3].
+  cbn. apply vec_eq; ring.
+Qed.
+Lemma mapply_scal m v : mapply m (vmuls v mu0) = vmuls (mapply m v) mu0.
+Proof.
+  destruct m as [[[[a1 a2] a3] [[b1 b2] b3]] [[c1 c2] c3]]. destruct v as [[v1 v2] v3]. cbn. apply vec_eq; ring.
+Qed.
+Lemma mapply_zero m : mapply m vzero = vzero.
+Proof. destruct m as [[[[a1 a2] a3] [[b1 b2] b3]] [[c1 c2] c3]]. unfold vzero. cbn. apply vec_eq; ring. Qed.
+
+Lemma level1_magnet m local pol inside :
+  magnet_spec (local FB) (local FH) (local FJ) (local FM) pol inside ->
+  magnet_spec (level1 m local FB) (level1 m local FH) (level1 m local FJ) (level1 m local FM) (mapply m pol) inside.
+Proof.
+  intros (H1 & H2 & H3 & _). unfold level1.
+  split; [rewrite H1 at 1; apply mapply_lin|]. split; [rewrite H2 at 1; apply mapply_scal|].
+  apply J_spec. rewrite H3. destruct inside; cbn [vsel]; [reflexivity|apply mapply_zero].
+Qed.
+
+Lemma level1_current m local :
+  current_spec (local FB) (local FH) (local FJ) (local FM) ->
+  current_spec (level1 m local FB) (level1 m local FH) (level1 m local FJ) (level1 m local FM).
+Proof.
+  intros (H1 & H2 & H3 & H4). unfold level1.
+  split; [rewrite H1 at 1; apply mapply_lin|]. split; [rewrite H2 at 1; apply mapply_scal|].
+  rewrite H3, H4. split; apply mapply_zero.
+Qed.
+
 End AnyField.
